@@ -73,7 +73,7 @@ function plan (seed, run, tier) {
   // operations
   const nOps = tier === 'thorough' ? rng.range(8, 40) : rng.range(8, 30)
   const ops = []
-  const vias = ['string', 'user', 'user-late', 'rewrapped']
+  const vias = ['string', 'user', 'user-late', 'rewrapped', 'keep', 'keep']
   for (let i = 0; i < nOps; i++) {
     const f = rng.below(nFiles)
     const k = rng.weighted([8, 3, 12, 2, lookups.length ? 4 : 0, lookups.length ? 2 : 0, 1, lookups.length ? 2 : 0, 1])
@@ -83,7 +83,7 @@ function plan (seed, run, tier) {
       if (rng.chance(3, 4)) ops.push({ op: 'Load', f })
     } else if (k === 1) ops.push(rng.chance(1, 3) ? { op: 'LoadRaw', f, v: rng.below(files[f].versions.length) } : { op: 'Load', f })
     else if (k === 2) ops.push({ op: 'Throw', f, site: rng.below(6), via: rng.pick(vias), cbf: rng.below(nFiles), cbsite: rng.below(6) })
-    else if (k === 3) ops.push({ op: 'SetHandler', kind: rng.pick(['none', 'user', 'undefined', 'same']) })
+    else if (k === 3) ops.push(rng.chance(1, 4) ? { op: 'CaptureObj' } : { op: 'SetHandler', kind: rng.pick(['none', 'user', 'undefined', 'same', 'fragile', 'fragile']) })
     else if (k === 4) { const lf = rng.below(lookups.length); ops.push({ op: 'Lookup', lf, line: rng.range(1, 14), col: rng.range(1, 25) }) } else if (k === 5) { const lf = rng.below(lookups.length); ops.push({ op: 'FsMutate', lf, to: rng.below(lookups[lf].variants.length) }) } else if (k === 6) ops.push({ op: 'Burst', n: rng.pick([5, 50, 1001, 1100]) })
     else if (k === 7) ops.push({ op: 'FsFault', faults: [rng.pick([{ op: 'existsSync', kind: 'false' }, { op: 'existsSync', kind: 'true' }, { op: 'existsSync', kind: 'throw' }, { op: 'readFileSync', kind: 'ENOENT' }, { op: 'readFileSync', kind: 'EACCES' }, { op: 'readFileSync', kind: 'EISDIR' }, { op: 'readFileSync', kind: 'truncate' }, { op: 'readFileSync', kind: 'garbage' }])] })
     else ops.push({ op: 'NonCacheRewrite', f, v: rng.below(files[f].versions.length) })
@@ -164,6 +164,9 @@ function execute (plan, table) {
     return out
   }
 
+  // a user handler that (like many real ones) assumes an Error: it throws a TypeError on other objects
+  let fragileInstalled = false
+  const mkFragile = (tag) => { const base = mkUser(tag); return function fragilePST (err, callSites) { err.message.trim(); return base(err, callSites) } }
   const rewriters = plan.cfgs.map(c => new pkg.Rewriter(c))
   const nonCache = new pkg.NonCacheRewriter(plan.cfgs[0])
   const L = {} // file -> {id, v, status, content, rw}
@@ -195,7 +198,7 @@ function execute (plan, table) {
     return { fi: +m[1], vi: +m[2], k: +m[3], caller: m[4] === 'c' }
   }
 
-  function checkFrames (op, via, result, siteKindOfThrow) {
+  function checkFrames (op, via, result, siteKindOfThrow, lineOverride) {
     // per-frame expectations from the reference model
     const raw = lastRaw || []
     const isString = typeof result === 'string'
@@ -224,7 +227,7 @@ function execute (plan, table) {
         if (lx && ld && id && fo.versions[id.vi] && ld.v === id.vi) {
           const ver = fo.versions[id.vi]
           const site = ver.sites[id.k]
-          const siteLine = site ? (id.caller ? site.cbLine : site.line) : 0
+          const siteLine = site ? (id.caller ? site.cbLine : (lineOverride && lineOverride.fn === site.fn ? lineOverride.line : site.line)) : 0
           const cfgL = plan.cfgs[lx.rw]
           // the original map covers the file from (0-based) line `gap` on: 1-based line L is unmapped iff L <= gap
           const unmapped = cfgL.chainSourceMap && ver.omap && siteLine > 0 && siteLine <= (ver.omap.gap || 0)
@@ -352,12 +355,22 @@ function execute (plan, table) {
         log.push(`#${seq} LoadRaw f=${op.f} v=${op.v}`)
         st('op:LoadRaw')
       } else if (op.op === 'SetHandler') {
-        if (op.kind === 'none' || op.kind === 'undefined') Error.prepareStackTrace = undefined
-        else if (op.kind === 'user') Error.prepareStackTrace = mkUser('u' + seq)
-        else Error.prepareStackTrace = actual // 'same': an already wrapped handler is handed back
+        if (op.kind === 'none' || op.kind === 'undefined') { Error.prepareStackTrace = undefined; fragileInstalled = false } else if (op.kind === 'user') { Error.prepareStackTrace = mkUser('u' + seq); fragileInstalled = false } else if (op.kind === 'fragile') { Error.prepareStackTrace = mkFragile('f' + seq); fragileInstalled = true } else Error.prepareStackTrace = actual // 'same': an already wrapped handler is handed back
         hist.push(['SetHandler', 0, op.kind])
         log.push(`#${seq} SetHandler ${op.kind}`)
         st('op:SetHandler')
+      } else if (op.op === 'CaptureObj') {
+        // a stack captured on a plain object (no message): a fragile user handler throws on it
+        const o = {}
+        Error.captureStackTrace(o)
+        lastRaw = null; handlerThrew = null
+        let got
+        try { got = o.stack } catch (e) { viol('N1', 'N1:stack-access-threw', `[op #${seq}] reading the stack of a captured object threw: ${e && e.message}`) }
+        if (handlerThrew && !(fragileInstalled && handlerThrew instanceof TypeError)) viol('N1', 'N1:prepareStackTrace-threw', `[op #${seq} CaptureObj] the package's prepareStackTrace threw: ${handlerThrew && handlerThrew.message}`)
+        if (handlerThrew && fragileInstalled) st('fault:user-handler-threw')
+        hist.push(['CaptureObj', 0, fragileInstalled ? 'fragile' : typeof got])
+        log.push(`#${seq} CaptureObj fragile=${fragileInstalled} threw=${!!handlerThrew}`)
+        st('op:CaptureObj')
       } else if (op.op === 'Throw') {
         const f = plan.files[op.f]; const ld = f && loaded[f.path]
         if (!f || !ld) { log.push(`#${seq} Throw f=${op.f} skipped (not loaded)`); seq++; continue }
@@ -372,29 +385,32 @@ function execute (plan, table) {
           const cf = plan.files[op.cbf]; const cld = cf && loaded[cf.path]
           if (cld) {
             const cver = cf.versions[cld.v]
-            const cs = cver.sites.filter(s => !['callback', 'throw', 'method', 'helper'].includes(s.kind))
+            const cs = cver.sites.filter(s => !['callback', 'throw', 'method', 'helper', 'double'].includes(s.kind))
             if (cs.length) { const c = cs[op.cbsite % cs.length]; cb = cld.exports[c.fn]; cbKind = c.kind; if (cf.path !== f.path) st('probe:cross-file-stack') }
           }
           if (typeof cb !== 'function') cb = function plainCallback () { return new Error('cb') }
         }
-        if (op.via === 'string') Error.prepareStackTrace = undefined
-        else if (op.via === 'user' || op.via === 'user-late') Error.prepareStackTrace = mkUser('t' + seq)
-        else { Error.prepareStackTrace = mkUser('t' + seq); const a = actual; Error.prepareStackTrace = a }
+        if (op.via === 'string') { Error.prepareStackTrace = undefined; fragileInstalled = false } else if (op.via === 'user' || op.via === 'user-late') { Error.prepareStackTrace = mkUser('t' + seq); fragileInstalled = false } else if (op.via === 'rewrapped') { Error.prepareStackTrace = mkUser('t' + seq); const a = actual; Error.prepareStackTrace = a; fragileInstalled = false }
+        // via 'keep': whatever handler is installed stays (the same wrapper function keeps formatting)
         let err
         try { err = fn('arg', cb) } catch (e) { err = e }
-        lastRaw = null; handlerThrew = null
-        let result
-        try { result = err && err.stack } catch (e) { viol('N1', 'N1:stack-access-threw', `[op #${seq}] reading error.stack threw: ${e && e.message}`) }
-        if (handlerThrew) viol('N1', 'N1:prepareStackTrace-threw', `[op #${seq} via=${op.via}] the package's prepareStackTrace threw: ${handlerThrew && handlerThrew.message}`)
-        if (lastRaw) {
-          checkFrames(op, op.via, result, site.kind === 'callback' ? cbKind : site.kind)
-          st('throws-checked')
-          st('frames-checked', lastRaw.length)
-          st(op.via === 'string' ? 'probe:string-path' : 'probe:structured-path')
+        const errs = Array.isArray(err) ? [{ e: err[0], line: site.line }, { e: err[1], line: site.line2 }] : [{ e: err, line: null }]
+        for (const item of errs) {
+          lastRaw = null; handlerThrew = null
+          let result
+          try { result = item.e && item.e.stack } catch (e) { viol('N1', 'N1:stack-access-threw', `[op #${seq}] reading error.stack threw: ${e && e.message}`) }
+          if (handlerThrew) viol('N1', 'N1:prepareStackTrace-threw', `[op #${seq} via=${op.via}] the package's prepareStackTrace threw: ${handlerThrew && handlerThrew.message}`)
+          if (lastRaw) {
+            checkFrames(op, op.via, result, site.kind === 'callback' ? cbKind : site.kind, item.line ? { fn: site.fn, line: item.line } : null)
+            st('throws-checked')
+            st('frames-checked', lastRaw.length)
+            st(typeof result === 'string' ? 'probe:string-path' : 'probe:structured-path')
+            if (errs.length > 1) st('probe:two-stacks-from-one-expression')
+          }
         }
         const lx = L[f.path]
         const rel = !lx ? 'never' : lx.id === ld.id ? `current-${lx.status}` : 'stale'
-        hist.push(['Throw', op.f, rel + ':' + (op.via === 'string' ? 's' : 'u')])
+        hist.push(['Throw', op.f, rel + ':' + op.via])
         rep.cells.push(`Throw:${site.kind}:${rel}:${op.via}`)
         log.push(`#${seq} Throw f=${op.f} v=${ld.v} site=${site.k}(${site.kind}) via=${op.via} rel=${rel} frames=${lastRaw ? lastRaw.length : '-'} top=${lastRaw && lastRaw[0] ? lastRaw[0].line : '-'}`)
         st('op:Throw')
@@ -510,5 +526,5 @@ module.exports = {
     'frames of code that is older than the latest rewrite of its file carry no positional expectation (the package keys by file name)',
     'batching the rewriter is sound here because call-to-call state of the rewriter is C16\'s subject'
   ],
-  expectedProbes: ['probe:frame-in-unmapped-region-of-chained-map', 'probe:frame-in-rewritten-file', 'probe:frame-through-chained-map', 'probe:file-rewritten-again', 'probe:throw-from-stale-code', 'probe:notmodified-after-modified', 'probe:rewrite-by-second-rewriter-instance', 'probe:eval-frame', 'probe:frame-in-never-rewritten-file', 'probe:lru-eviction-burst', 'probe:cross-file-stack', 'probe:string-path', 'probe:structured-path', 'probe:lookup-translated']
+  expectedProbes: ['probe:frame-in-unmapped-region-of-chained-map', 'probe:frame-in-rewritten-file', 'probe:frame-through-chained-map', 'probe:file-rewritten-again', 'probe:throw-from-stale-code', 'probe:notmodified-after-modified', 'probe:rewrite-by-second-rewriter-instance', 'probe:eval-frame', 'probe:frame-in-never-rewritten-file', 'probe:lru-eviction-burst', 'probe:cross-file-stack', 'probe:string-path', 'probe:structured-path', 'probe:lookup-translated', 'probe:two-stacks-from-one-expression']
 }
